@@ -1184,6 +1184,23 @@ def decode_every(ctx, py, rule="PY-DECODE-EVERY", floor=3):
                    "decode(%s) is the unconditional first step of the loop body" % lp.target.id if ok else
                    "decode() is %s" % ("conditional: some sites are never decoded" if not top else
                                        "not called with the loop variable" if not arg_ok else "preceded by the yield / store"))
+            # domain: the loop walks a contiguous range of site ids written in its header (a filtered id list, or a name that an
+            # option re-binds to a subset, skips sites); where the function allocates a result matrix the range is its row count
+            it = lp.iter
+            is_range = isinstance(it, ast.Call) and call_name(it) == "range"
+            rows = None
+            for a in ast.walk(fn):
+                if isinstance(a, ast.Assign) and isinstance(a.value, ast.Call) and (call_name(a.value) or "").split(".")[-1] in ("zeros", "empty", "full"):
+                    for kw in a.value.keywords:
+                        if kw.arg == "shape" and isinstance(kw.value, ast.Tuple) and kw.value.elts:
+                            rows = ast.unparse(kw.value.elts[0])
+                    if rows is None and a.value.args and isinstance(a.value.args[0], ast.Tuple) and a.value.args[0].elts:
+                        rows = ast.unparse(a.value.args[0].elts[0])
+            dom_ok = is_range and (rows is None or (len(it.args) == 1 and ast.unparse(it.args[0]) == rows)
+                                   or (len(it.args) == 2 and ast.unparse(it.args[0]) == "0" and ast.unparse(it.args[1]) == rows))
+            ctx.ob(rule, "%s@%d|domain" % (qn, k), dom_ok, m.loc(lp),
+                   "iterates `%s`%s" % (ast.unparse(it)[:40], "" if dom_ok else
+                                        (": not a contiguous range in the loop header" if not is_range else ": does not cover the %s rows that are allocated" % rows)))
             k += 1
     ctx.floor(rule, floor)
     return n
